@@ -104,8 +104,21 @@ def connectStep (c : Conn) (ws : List String) : Conn × List String :=
   | ["destroy"] => let c' := connDestroy c; (c', cbsOf c c')
   | _ => (c, ["bad-op"])
 
+/-- mode `send`: `enq <bytes> <handle id|->` | `sys <result>` (one syscall of uv__write on the head request) -/
+def sendStep (s : SSt) (ws : List String) : SSt × List String :=
+  match ws with
+  | [] => (s, [])
+  | ["enq", b, h] => (enq s (nat! b) (if h = "-" then none else some (nat! h)), [])
+  | ["sys", r] =>
+    match s.queue with
+    | [] => (s, ["bad-op"])
+    | req :: _ =>
+      let h := match req.handle with | some x => toString x | none => "-"
+      (attempt s (int! r), [s!"req={req.id} handle={h} asked={req.remaining}"])
+  | _ => (s, ["bad-op"])
+
 def modes : List (String × IO Unit) :=
   [("accept", runLines ({} : AS) acceptStep), ("wcheck", runLines () wcheckStep),
-   ("connect", runLines ({} : Conn) connectStep)]
+   ("connect", runLines ({} : Conn) connectStep), ("send", runLines ({} : SSt) sendStep)]
 
 end Drivers.C07
